@@ -1,7 +1,7 @@
 """the octet-string level corpora shared by C07 (sanitised exact-size replay), C09, C15, C19"""
 import importlib
 
-MODULES = ['cat_belt', 'cat_misc', 'cat_core', 'cat_bign', 'cat_bake', 'cat_bels', 'cat_sig', 'cat_tok', 'cat_codec']
+MODULES = ['cat_belt', 'cat_misc', 'cat_core', 'cat_bign', 'cat_bake', 'cat_bels', 'cat_sig', 'cat_tok', 'cat_codec', 'cat_util']
 
 def all_cases(tier, groups=None):
     import os
